@@ -615,6 +615,8 @@ def gen_hist(rng, nrounds=8, adversarial=0.25, maxworks=4):
             behs = []
             for wid in everyone:
                 inst = w.ex.works.get(wid)
+                if pending[:1] == [wid]:
+                    inst = None      # a stale work with this id is replaced by the arriving one before the tasks run
                 own = inst.open_fds() if inst is not None else [wid]
                 live = [fd for fd in own if fd != wid]
                 mine = live + closed_seen[-3:]
